@@ -6,25 +6,26 @@ Read from the LIVE objects of the rpyc tree (gen_consts.py has put it first on s
 * `Connection._request_handlers()`: handler id -> `_handle_*` method name, and each handler's arity
   (required / accepted positional parameters after `self`) from its signature;
 * `netref.LOCAL_ATTRS`, `netref.DELETED_ATTRS`;
-* `DEFAULT_CONFIG`: the attribute switches, the prefix, `safe_attrs` (what the forwarding layer's
-  `permitted_ops` theorem is stated over).
+* `DEFAULT_CONFIG`: the attribute switches, the prefix, `safe_attrs`.
 
-AST facts (not data):
+Facts that are not data are OBSERVED, not parsed: the real methods are run against a recording stand-in for the
+connection and what they ask it to send is read off.  No source text is looked at, so renaming locals or parameters,
+hoisting a table to a module constant, extracting helpers, comments and docstrings cannot change the result, while a
+different handler, argument or argument order does.
 
-* for every method of `BaseNetref`: each `syncreq/asyncreq(self, consts.HANDLE_X, args...)` it contains, with
-  the arguments normalised so that renaming a parameter does not change the text
-  (`$1`, `$2` = the method's own parameters in order, constants by `repr`, `self.attr` kept);
-* for `_make_method`: its four shapes (`__call__`, the slicers, `__array__`, every other name) with the inner
-  function's signature shape and the request it issues (unconditional local re-assignments substituted, so
-  `kwargs = tuple(kwargs.items())` shows up as `tuple(items($**))`), and the `slicers` table;
-* `helpers.buffiter`: the request it issues per round.
+* every function of `BaseNetref`'s own class body is called on a real `BaseNetref` instance (with a recording
+  connection) with sentinel arguments; recorded: sync or async request, which proxy, which HANDLE_*, and each argument
+  as a pattern (`$k` = the k-th argument of the call, constants by `repr`, `self.____refcount__`, `$1.____id_pack__`);
+* `_make_method(name, doc)` is called for `__call__`, the three slicer names, `__array__` and an ordinary name; each
+  made function is called with sentinel positional and keyword arguments (`$*` = the tuple of the extra positional
+  arguments, `tuple(items($**))` = `tuple(kwargs.items())`, `$name` = the method's name); the slicer table is what
+  the slicer methods send as the method to try first;
+* `helpers.buffiter` is run one round against a recording iterator proxy.
 
-Raises gen_consts.Inexpressible when the source no longer has a shape these definitions can express.
+Raises gen_consts.Inexpressible when the observation no longer has a shape these definitions can express.
 """
-import ast
 import inspect
 import sys
-import textwrap
 
 import gen_consts
 from gen_consts import lean_str, lean_list
@@ -33,6 +34,7 @@ Inexpressible = getattr(sys.modules.get("__main__"), "Inexpressible", None) or g
 
 SWITCHES = ["allow_safe_attrs", "allow_exposed_attrs", "allow_public_attrs", "allow_all_attrs",
             "allow_getattr", "allow_setattr", "allow_delattr"]
+SLICER_NAMES = ["__delslice__", "__getslice__", "__setslice__"]
 
 
 def camel(name):
@@ -44,114 +46,184 @@ def lean_strs(xs, per_line=6):
     return lean_list([lean_str(x) for x in xs], per_line)
 
 
-def cps(s):
-    return "[" + ", ".join(str(ord(c)) for c in s) + "]"
+# ---------------------------------------------------------------------------------------------- recording stand-ins
+class Sentinel(object):
+    """an argument handed to a method under observation"""
+    def __init__(self, tag):
+        self.tag = tag
+
+    def __repr__(self):
+        return self.tag
 
 
-# ---------------------------------------------------------------------------------------------- AST helpers
-def class_ast(cls):
-    return ast.parse(textwrap.dedent(inspect.getsource(cls))).body[0]
+class Recorder(object):
+    """stands in for a Connection: records what netref asks it to send"""
+    def __init__(self):
+        self.calls = []
+
+    def sync_request(self, handler, *args):
+        self.calls.append(("syncreq", handler, args))
+        return ()
+
+    def async_request(self, handler, *args, **kwargs):
+        self.calls.append(("asyncreq", handler, args))
+        return None
 
 
-def func_ast(fn):
-    return ast.parse(textwrap.dedent(inspect.getsource(fn))).body[0]
+def handler_names(consts):
+    return dict((v, k) for k, v in vars(consts).items() if k.startswith("HANDLE_") and type(v) is int)
 
 
-def param_map(fn_node, skip_first=True):
-    """parameter name -> placeholder; positional `$k`, `*args` -> `$*`, `**kw` -> `$**`"""
-    a = fn_node.args
-    names = [x.arg for x in a.posonlyargs + a.args]
-    out = {}
-    if skip_first and names:
-        out[names[0]] = "self"
-        names = names[1:]
-    for k, n in enumerate(names, 1):
-        out[n] = "$%d" % k
-    if a.vararg:
-        out[a.vararg.arg] = "$*"
-    if a.kwarg:
-        out[a.kwarg.arg] = "$**"
-    return out
+def pattern(value, positional, star, kwargs, method_name, proxy, refcount, others):
+    """one request argument as a pattern over the arguments of the observed call"""
+    for k, s in enumerate(positional, 1):
+        if value is s:
+            return "$%d" % k
+    if value is proxy:
+        return "self"
+    if star is not None and type(value) is tuple and len(value) == len(star) and all(a is b for a, b in zip(value, star)):
+        return "$*"
+    if kwargs is not None and type(value) is tuple and value == tuple(kwargs.items()) and kwargs:
+        return "tuple(items($**))"
+    if method_name is not None and type(value) is str and value == method_name:
+        return "$name"
+    if refcount is not None and type(value) is int and value == refcount:
+        return "self.____refcount__"
+    for k, idp in others.items():
+        if value is idp or (type(value) is tuple and value == idp):
+            return "$%d.____id_pack__" % k
+    if value is None or type(value) in (int, str, bytes, bool, float):
+        return repr(value)
+    return "?" + type(value).__name__
 
 
-def sig_shape(fn_node):
-    a = fn_node.args
-    n = len(a.posonlyargs + a.args) - 1
-    return "(%s%s%s)" % (",".join("$%d" % k for k in range(1, n + 1)),
-                         (",*" if n else "*") if a.vararg else "", (",**" if (n or a.vararg) else "**") if a.kwarg else "")
-
-
-def norm(e, env):
-    """argument expression -> text that does not depend on parameter / local names"""
-    if isinstance(e, ast.Name):
-        return env.get(e.id, "?" + e.id)
-    if isinstance(e, ast.Constant):
-        return repr(e.value)
-    if isinstance(e, ast.Attribute):
-        base = norm(e.value, env)
-        return "%s.%s" % (base, e.attr)
-    if isinstance(e, ast.Subscript):
-        return "%s[%s]" % (norm(e.value, env), norm(e.slice, env))
-    if isinstance(e, ast.Call) and not e.keywords:
-        f = e.func
-        if isinstance(f, ast.Name):
-            return "%s(%s)" % (f.id, ",".join(norm(x, env) for x in e.args))
-        if isinstance(f, ast.Attribute) and not e.args:
-            return "%s(%s)" % (f.attr, norm(f.value, env))
-    if isinstance(e, ast.UnaryOp) and isinstance(e.op, ast.USub) and isinstance(e.operand, ast.Constant):
-        return repr(-e.operand.value)
-    return "?" + ast.unparse(e)
-
-
-def handler_name(e, local_nodes=None):
-    """`consts.HANDLE_X`, bare `HANDLE_X`, or a local name unconditionally bound to one of those -> 'HANDLE_X'"""
-    if isinstance(e, ast.Attribute) and isinstance(e.value, ast.Name) and e.value.id == "consts":
-        return e.attr
-    if isinstance(e, ast.Name) and e.id.startswith("HANDLE_"):
-        return e.id
-    if isinstance(e, ast.Name) and local_nodes and e.id in local_nodes:
-        return handler_name(local_nodes[e.id], None)
-    return None
-
-
-def requests_in(fn_node, env):
-    """every syncreq/asyncreq call in the function, in source order: (kind, target, HANDLE, [args])"""
-    env = dict(env)
-    out = []
-    local_nodes = {}
-
-    class V(ast.NodeVisitor):
-        def visit_FunctionDef(self, node):  # do not descend into nested functions
-            if node is fn_node:
-                for s in node.body:
-                    self.visit(s)
-
-        def visit_Assign(self, node):
-            self.generic_visit(node)
-
-        def visit_Call(self, node):
-            f = node.func
-            if isinstance(f, ast.Name) and f.id in ("syncreq", "asyncreq"):
-                if len(node.args) < 2 or node.keywords:
-                    raise Inexpressible("%s: %s call with an unexpected shape" % (fn_node.name, f.id))
-                h = handler_name(node.args[1], local_nodes)
-                if h is None:
-                    raise Inexpressible("%s: handler of a %s call is not a HANDLE_* constant: %s"
-                                        % (fn_node.name, f.id, ast.unparse(node.args[1])))
-                out.append((f.id, norm(node.args[0], env), h, [norm(a, env) for a in node.args[2:]]))
-            self.generic_visit(node)
-
-    # unconditional top-level re-assignments `x = expr` are substituted (kwargs = tuple(kwargs.items()))
-    for s in fn_node.body:
-        if isinstance(s, ast.Assign) and len(s.targets) == 1 and isinstance(s.targets[0], ast.Name):
-            local_nodes[s.targets[0].id] = s.value
-            env[s.targets[0].id] = norm(s.value, env)
-    V().visit(fn_node)
-    return out
+def sig_shape(fn):
+    ps = list(inspect.signature(fn).parameters.values())[1:]
+    out, n = [], 0
+    for p in ps:
+        if p.kind in (p.POSITIONAL_ONLY, p.POSITIONAL_OR_KEYWORD):
+            n += 1
+            out.append("$%d" % n)
+        elif p.kind == p.VAR_POSITIONAL:
+            out.append("*")
+        elif p.kind == p.VAR_KEYWORD:
+            out.append("**")
+        else:
+            raise Inexpressible("a netref method takes keyword-only parameters")
+    return "(" + ",".join(out) + ")"
 
 
 def fmt_req(key, kind, target, h, args):
     return "(%s, %s, %s, %s, %s)" % (lean_str(key), lean_str(kind), lean_str(target), lean_str(h), lean_strs(args, 8))
+
+
+def observe_base_methods(netref, consts):
+    """every function of BaseNetref's class body, run on a real instance against the recorder"""
+    names = handler_names(consts)
+    methods, reqs = [], []
+    for mname, fn in vars(netref.BaseNetref).items():
+        if not inspect.isfunction(fn):
+            continue
+        methods.append(mname)
+        if mname == "__init__":
+            continue
+        rec = Recorder()
+        # a proxy of a CLASS (instance part of the id pack 0), so that `__instancecheck__` takes its remote branch
+        proxy = netref.BaseNetref(rec, ("observed.Class", 1001, 0))
+        ps = list(inspect.signature(fn).parameters.values())[1:]
+        if any(p.kind not in (p.POSITIONAL_ONLY, p.POSITIONAL_OR_KEYWORD) for p in ps):
+            raise Inexpressible("BaseNetref.%s takes *args / **kwargs" % mname)
+        positional, others = [], {}
+        for k, p in enumerate(ps, 1):
+            if mname == "__instancecheck__":
+                other = netref.BaseNetref(Recorder(), ("observed.Other", 2002, 3003))
+                others[k] = object.__getattribute__(other, "____id_pack__")
+                positional.append(other)
+            elif mname in ("__getattribute__", "__getattr__", "__delattr__", "__setattr__") and k == 1:
+                positional.append("observed_remote_attribute")      # a name the netref does not keep to itself
+            else:
+                positional.append(Sentinel("$%d" % k))
+        object.__setattr__(proxy, "____refcount__", 4242)
+        rec.calls[:] = []
+        try:
+            fn(proxy, *positional)
+        except Exception:  # noqa  (e.g. pickle.loads of the recorder's answer): the request has been recorded
+            pass
+        for kind, handler, args in rec.calls:
+            if handler not in names:
+                raise Inexpressible("BaseNetref.%s issues an unknown handler %r" % (mname, handler))
+            target = "self" if args and args[0] is proxy else "?"
+            pats = [pattern(a, positional, None, None, None, proxy, 4242, others) for a in args[1:]]
+            reqs.append(fmt_req(mname, kind, target, names[handler], pats))
+        # the proxy must not send HANDLE_DEL into the next observation
+        object.__setattr__(proxy, "____conn__", Recorder())
+    return methods, reqs
+
+
+def observe_made_method(netref, consts, name):
+    """`_make_method(name, doc)`, the made function run against the recorder"""
+    names = handler_names(consts)
+    fn = netref._make_method(name, "doc")
+    rec = Recorder()
+    proxy = netref.BaseNetref(rec, ("observed.Class", 1001, 5005))
+    ps = list(inspect.signature(fn).parameters.values())[1:]
+    positional = [Sentinel("$%d" % k) for k, p in enumerate(ps, 1) if p.kind in (p.POSITIONAL_ONLY, p.POSITIONAL_OR_KEYWORD)]
+    has_star = any(p.kind == p.VAR_POSITIONAL for p in ps)
+    has_kw = any(p.kind == p.VAR_KEYWORD for p in ps)
+    star = (Sentinel("*1"), Sentinel("*2")) if has_star else None
+    kwargs = {"kw_a": Sentinel("**a"), "kw_b": Sentinel("**b")} if has_kw else None
+    rec.calls[:] = []
+    try:
+        fn(proxy, *(positional + list(star or ())), **(kwargs or {}))
+    except Exception:  # noqa
+        pass
+    calls = list(rec.calls)
+    object.__setattr__(proxy, "____conn__", Recorder())
+    if len(calls) != 1:
+        raise Inexpressible("_make_method(%r): the made method issues %d requests" % (name, len(calls)))
+    kind, handler, args = calls[0]
+    if handler not in names:
+        raise Inexpressible("_make_method(%r): unknown handler %r" % (name, handler))
+    target = "self" if args and args[0] is proxy else "?"
+    raw = list(args[1:])
+    pats = [pattern(a, positional, star, kwargs, name, proxy, None, {}) for a in raw]
+    return sig_shape(fn), kind, target, names[handler], pats, raw
+
+
+def observe_buffiter(helpers, consts):
+    names = handler_names(consts)
+    rec = Recorder()
+
+    class IterProxy(object):
+        def __iter__(self):
+            return self
+
+        def __next__(self):
+            raise StopIteration
+    it = IterProxy()
+    setattr(it, "____conn__", rec)
+
+    class Iterable(object):
+        def __iter__(self):
+            return it
+    obj = Iterable()
+    params = [obj, 7, 1000, 2]
+    try:
+        for _ in helpers.buffiter(*params):
+            pass
+    except Exception:  # noqa
+        pass
+    if len(rec.calls) != 1:
+        raise Inexpressible("helpers.buffiter: %d requests in its first round" % len(rec.calls))
+    kind, handler, args = rec.calls[0]
+    if handler not in names:
+        raise Inexpressible("helpers.buffiter: unknown handler %r" % (handler,))
+    target = "iter($1)" if args and args[0] is it else "?"
+    pats = []
+    for a in args[1:]:
+        hits = [k for k, p in enumerate(params, 1) if type(p) is int and a == p]
+        pats.append("$%d" % hits[0] if hits else "?" + repr(a))
+    return kind, target, names[handler], pats
 
 
 # ---------------------------------------------------------------------------------------------- sections
@@ -218,85 +290,43 @@ def gen_netref():
     L += ["def localAttrs : List String := " + lean_strs(sorted(netref.LOCAL_ATTRS)),
           "def deletedAttrs : List String := " + lean_strs(sorted(netref.DELETED_ATTRS)), ""]
 
-    # -- BaseNetref's own methods: which request each issues
-    cnode = class_ast(netref.BaseNetref)
-    reqs, methods = [], []
-    for node in cnode.body:
-        if isinstance(node, ast.FunctionDef):
-            methods.append(node.name)
-            for kind, target, h, args in requests_in(node, param_map(node)):
-                reqs.append(fmt_req(node.name, kind, target, h, args))
+    # -- BaseNetref's own methods: which request each issues (observed)
+    methods, reqs = observe_base_methods(netref, consts)
     L += ["/-- methods `BaseNetref` defines itself (everything else is made by `_make_method`) -/",
           "def baseMethods : List String := " + lean_strs(methods),
-          "/-- (method, syncreq|asyncreq, proxy expression, HANDLE_*, normalised arguments) for every request a",
-          "`BaseNetref` method issues, in source order (`$k` = k-th parameter after self) -/",
+          "/-- (method, syncreq|asyncreq, proxy expression, HANDLE_*, argument patterns) for every request a",
+          "`BaseNetref` method issues when run against a recording connection (`$k` = k-th argument after self) -/",
           "def baseRequests : List (String × String × String × String × List String) := " + lean_list(reqs, 1), ""]
 
-    # -- _make_method: the four shapes
-    mm = func_ast(netref._make_method)
-    slicers = None
-    for s in mm.body:
-        if isinstance(s, ast.Assign) and isinstance(s.targets[0], ast.Name) and s.targets[0].id == "slicers":
-            try:
-                slicers = ast.literal_eval(s.value)
-            except Exception:  # noqa
-                raise Inexpressible("_make_method: `slicers` is not a literal dict")
-    if not isinstance(slicers, dict):
-        raise Inexpressible("_make_method: no `slicers` table")
-    chain = [s for s in mm.body if isinstance(s, ast.If)]
-    if len(chain) != 1:
-        raise Inexpressible("_make_method: expected one if/elif chain, found %d" % len(chain))
+    # -- _make_method: the four shapes (observed)
     shapes = []
-    node = chain[0]
-    outer_env = {"name": "$name", "slicers": "slicers"}
-
-    def shape_key(test):
-        if isinstance(test, ast.Compare) and len(test.ops) == 1 and isinstance(test.left, ast.Name) and test.left.id == "name":
-            c = test.comparators[0]
-            if isinstance(test.ops[0], ast.Eq) and isinstance(c, ast.Constant) and type(c.value) is str:
-                return c.value
-            if isinstance(test.ops[0], ast.In) and isinstance(c, ast.Name) and c.id == "slicers":
-                return "<slicers>"
-        raise Inexpressible("_make_method: branch test not understood: %s" % ast.unparse(test))
-
-    def one_shape(key, body):
-        fns = [s for s in body if isinstance(s, ast.FunctionDef)]
-        if len(fns) != 1:
-            raise Inexpressible("_make_method[%s]: expected one inner function" % key)
-        fn = fns[0]
-        env = dict(outer_env)
-        env.update(param_map(fn))
-        rs = requests_in(fn, env)
-        if len(rs) != 1:
-            raise Inexpressible("_make_method[%s]: expected exactly one request, found %d" % (key, len(rs)))
-        kind, target, h, args = rs[0]
-        shapes.append("(%s, %s, %s, %s, %s, %s)" % (lean_str(key), lean_str(sig_shape(fn)), lean_str(kind),
-                                                    lean_str(target), lean_str(h), lean_strs(args, 8)))
-
-    while True:
-        one_shape(shape_key(node.test), node.body)
-        if len(node.orelse) == 1 and isinstance(node.orelse[0], ast.If):
-            node = node.orelse[0]
-            continue
-        one_shape("<other>", node.orelse)
-        break
-    L += ["/-- `_make_method`: (branch, inner signature, syncreq|asyncreq, proxy expression, HANDLE_*, normalised",
-          "arguments); `$name` is the method's name, `$*`/`$**` the inner function's *args/**kwargs -/",
+    slicer_rows, slicer_obs = [], []
+    for nm in SLICER_NAMES:
+        shape, kind, target, h, pats, raw = observe_made_method(netref, consts, nm)
+        if h == "HANDLE_OLDSLICING" and raw and type(raw[0]) is str:
+            slicer_rows.append((nm, raw[0]))
+            pats = ["slicers[$name]"] + pats[1:]
+        slicer_obs.append((shape, kind, target, h, tuple(pats)))
+    if len(set(slicer_obs)) != 1:
+        raise Inexpressible("_make_method: the three slicer names no longer behave alike: %r" % (slicer_obs,))
+    for key, nm in (("__call__", "__call__"), ("<slicers>", None), ("__array__", "__array__"), ("<other>", "observed_method_name")):
+        if nm is None:
+            shape, kind, target, h, pats = slicer_obs[0]
+        else:
+            shape, kind, target, h, pats, _raw = observe_made_method(netref, consts, nm)
+        shapes.append("(%s, %s, %s, %s, %s, %s)" % (lean_str(key), lean_str(shape), lean_str(kind), lean_str(target),
+                                                    lean_str(h), lean_strs(list(pats), 8)))
+    L += ["/-- `_make_method`: (name class, made function's signature, syncreq|asyncreq, proxy expression, HANDLE_*, argument",
+          "patterns); `$name` is the method's name, `$*`/`$**` the made function's *args/**kwargs -/",
           "def makeMethodShapes : List (String × String × String × String × String × List String) := " + lean_list(shapes, 1),
           "def slicers : List (String × String) := " + lean_list(
-              ["(%s, %s)" % (lean_str(k), lean_str(v)) for k, v in sorted(slicers.items())], 3), ""]
+              ["(%s, %s)" % (lean_str(k), lean_str(v)) for k, v in sorted(slicer_rows)], 3), ""]
 
-    # -- helpers.buffiter
-    bf = func_ast(helpers.buffiter)
-    env = param_map(bf, skip_first=False)
-    # locals: `it = iter(obj)`, `count = chunk` are substituted by requests_in's top-level pass
-    rs = requests_in(bf, env)
-    if len(rs) != 1:
-        raise Inexpressible("helpers.buffiter: expected exactly one request, found %d" % len(rs))
-    kind, target, h, args = rs[0]
+    # -- helpers.buffiter (observed)
+    kind, target, h, pats = observe_buffiter(helpers, consts)
     L += ["/-- the request `helpers.buffiter` issues per round -/",
           "def buffiterRequest : String × String × String × List String := (%s, %s, %s, %s)"
-          % (lean_str(kind), lean_str(target), lean_str(h), lean_strs(args, 8)), ""]
+          % (lean_str(kind), lean_str(target), lean_str(h), lean_strs(pats, 8)), ""]
 
     # -- DEFAULT_CONFIG (what permitted_ops is stated over)
     cfg = protocol.DEFAULT_CONFIG
